@@ -316,6 +316,8 @@ class SigmaWideModifier(SigmaValueModifier[SigmaString, SigmaString]):
                 raise SigmaValueError(
                     "Encoding of strings with placeholders is not allowed", source=self.source
                 )
+            elif item == SpecialChars.WILDCARD_SINGLE:  # one arbitrary character takes two bytes
+                r.extend((item, item))
             else:  # just append special characters without further handling
                 r.append(item)
 
@@ -342,6 +344,8 @@ class SigmaUTF16BEModifier(SigmaValueModifier[SigmaString, SigmaString]):
                 raise SigmaValueError(
                     "Encoding of strings with placeholders is not allowed", source=self.source
                 )
+            elif item == SpecialChars.WILDCARD_SINGLE:  # one arbitrary character takes two bytes
+                r.extend((item, item))
             else:
                 r.append(item)
 
@@ -369,6 +373,8 @@ class SigmaUTF16Modifier(SigmaValueModifier[SigmaString, SigmaString]):
                 raise SigmaValueError(
                     "Encoding of strings with placeholders is not allowed", source=self.source
                 )
+            elif item == SpecialChars.WILDCARD_SINGLE:  # one arbitrary character takes two bytes
+                r.extend((item, item))
             else:
                 r.append(item)
 
